@@ -370,3 +370,20 @@ Theorem C15_store_before_fill_refuted :
   exists c, run fstep (finit (store_then_fill 3) 2) [0;0;0;0;1;1;1;1;1;1;1;0;0;0] = Some c /\
             In (1, 1) (fseen (fst c)).
 Proof. eexists. split; [vm_compute; reflexivity|]. simpl. auto. Qed.
+
+(** Setting the "loaded" flag before the load (seeded change C15/13: the lazy
+    decompression of a gzip bloom filter, bloom.go newBloomFilter, guarded by
+    [loaded.CompareAndSwap(false, true)] instead of [sync.Once]) is the same
+    shape with an entry of ONE field, the decompressed bits: the winner of the
+    compare-and-swap publishes the flag (FStore) and only then loads (FFill);
+    a caller that finds the flag set (FLoad hit) goes straight on to use the
+    bits at hand (FUse) and finds 0 of 1: CheckSplitBlock over no bits answers
+    (false, io.EOF) for a value that is present.  [C15_fill_then_store_complete]
+    at n = 1 is the order "load, then publish"; that sync.Once makes the
+    callers arriving meanwhile WAIT (instead of loading a copy of their own) is
+    not modelled - harness/c15 scenario L compares every first Check with the
+    serial answer. *)
+Theorem C15_flag_before_load_refuted :
+  exists c, run fstep (finit (store_then_fill 1) 2) [0;0;0;1;1;1;1;1;0;0] = Some c /\
+            In (1, 0) (fseen (fst c)) /\ In (0, 1) (fseen (fst c)).
+Proof. eexists. split; [vm_compute; reflexivity|]. simpl. auto. Qed.
